@@ -265,7 +265,9 @@ func (p *Program) GlobalConst(g *ssa.Global) (string, bool) {
 					}
 				}
 				if ok {
-					p.globalRx[gl] = "list‹" + strings.Join(elems, ",") + "›"
+					// rendered like the literal itself: a list written in place and the same list kept in
+					// a private table are the same thing
+					p.globalRx[gl] = "{" + strings.Join(elems, ",") + "}"
 				}
 			}
 		}
@@ -276,8 +278,8 @@ func (p *Program) GlobalConst(g *ssa.Global) (string, bool) {
 			rec = func(v ssa.Value) (string, bool) {
 				if ld, ok := v.(*ssa.UnOp); ok && ld.Op == token.MUL {
 					if gl, ok := ld.X.(*ssa.Global); ok {
-						if s, ok := p.globalRx[gl]; ok && strings.HasPrefix(s, "list‹") {
-							return "{" + strings.TrimSuffix(strings.TrimPrefix(s, "list‹"), "›") + "}", true
+						if s, ok := p.globalRx[gl]; ok && strings.HasPrefix(s, "{") {
+							return s, true
 						}
 					}
 					return "", false
